@@ -288,28 +288,57 @@ def r09b(ctx):
     ctx.floor('R09b', 'register_buffer sites in calculators', n, 4)
 
 
+def generic_seq(t: Term):
+    """(generic element, iterable, filtered?) of a sequence built either by a comprehension
+    over one iterable or by ``append`` in a loop (one generic element mentioning the loop
+    variable); None when t is not such a sequence."""
+    if t[0] == 'comp' and len(t[2]) == 1 and len(t[3]) == 1:
+        return t[2][0], t[3][0][1], bool(t[3][0][2])
+    if t[0] == 'list' and len(t[1]) == 1:
+        els = [x for x in subterms(t[1][0]) if x[0] == 'elem']
+        if els:
+            return t[1][0], els[0][1], False
+    if is_call(t, 'builtins.list', 'builtins.tuple') and t[2]:
+        return generic_seq(t[2][0])
+    return None
+
+
 def r09c(ctx):
     repo = ctx.repo
     cc = repo.cls('ConcatFeaturesCalculator')
     inputs = ('attr', SELF, 'inputs')
-    f = [p.retval for p in returning(paths(repo, cc.getters['features']))]
-    ok = len(f) == 1 and method_call(f[0]) and method_call(f[0])[1] == 'sum' and \
-        is_call(method_call(f[0])[0], 'torch.stack') and \
-        method_call(f[0])[0][2][0][0] == 'comp' and \
-        method_call(f[0])[0][2][0][3][0][1] == inputs and \
-        method_call(f[0])[0][2][0][2][0] == ('attr', ('elem', inputs,
-                                                      method_call(f[0])[0][2][0][2][0][1][2]),
-                                             'features')
+    def per_input(seq: Term, attr: str) -> bool:
+        """seq enumerates  <input>.<attr>  for every element of self.inputs, in order: a
+        comprehension / generator over self.inputs or a list filled by a loop over it"""
+        g = generic_seq(seq)
+        if g is None:
+            return False
+        el, it, filtered = g
+        return it == inputs and not filtered and el[0] == 'attr' and el[2] == attr and \
+            el[1][0] == 'elem' and el[1][1] == inputs
+
+    def total_of(t: Term) -> Optional[Term]:
+        """the sequence that t sums: torch.stack(S).sum(), torch.sum(torch.stack(S)), sum(S)"""
+        mc = method_call(t)
+        if mc and mc[1] == 'sum' and is_call(mc[0], 'torch.stack') and mc[0][2]:
+            return mc[0][2][0]
+        if is_call(t, 'torch.sum') and t[2] and is_call(t[2][0], 'torch.stack') and t[2][0][2]:
+            return t[2][0][2][0]
+        if is_call(t, 'builtins.sum') and t[2]:
+            return t[2][0]
+        return None
+    f = [p.retval for p in returning(paths(repo, cc.getters['features']))
+         if not any(e.kind == 'loop0' for e in p.events)]
+    ok = len(f) == 1 and total_of(f[0]) is not None and per_input(total_of(f[0]), 'features')
     ctx.ob('R09c', 'ConcatFeaturesCalculator.features', bool(ok),
            'sum of the features of every input' if ok else
            f'features = {short(f[0]) if f else None}: expected the sum over self.inputs',
            where(cc.getters['features']))
     m = [p.retval for p in returning(paths(repo, cc.getters['features_mask']))
-         if not is_call(p.retval, 'torch.cat') or p.retval[2][0] != ('list', ())]
-    okm = len(m) == 1 and is_call(m[0], 'torch.cat') and m[0][2][0][0] == 'list' and \
-        len(m[0][2][0][1]) == 1 and m[0][2][0][1][0][0] == 'attr' and \
-        m[0][2][0][1][0][2] == 'features_mask' and m[0][2][0][1][0][1][0] == 'elem' and \
-        m[0][2][0][1][0][1][1] == inputs and arg(m[0], 1, 'dim') == ('const', 0)
+         if not any(e.kind == 'loop0' for e in p.events)]
+    okm = len(m) == 1 and is_call(m[0], 'torch.cat') and m[0][2] and \
+        per_input(m[0][2][0], 'features_mask') and \
+        arg(m[0], 1, 'dim') in (('const', 0), None)
     ctx.ob('R09c', 'ConcatFeaturesCalculator.features_mask', bool(okm),
            'concatenation of the masks of every input, in the same order' if okm else
            f'features_mask = {short(m[0]) if m else None}: expected cat over self.inputs in '
@@ -456,8 +485,12 @@ def flatten_layout(t: Term, prev: Term) -> Optional[str]:
             la, lb = lab(x[2][0]), lab(x[2][1])
             if la and lb and len(la) == 1 and len(lb) == 1:
                 return [la[0] + ',' + lb[0]]
-        if is_call(x, 'torch.cat') and x[2] and x[2][0][0] == 'list' and len(x[2][0][1]) == 1:
-            el = x[2][0][1][0]
+        seq = x[2][0] if is_call(x, 'torch.cat') and x[2] else None
+        if seq is not None and seq[0] == 'comp' and seq[1] in ('list', 'gen') and \
+                len(seq[2]) == 1 and len(seq[3]) == 1 and not seq[3][0][2]:
+            seq = ('list', (seq[2][0],))       # [f(e) for e in it]: one generic element
+        if seq is not None and seq[0] == 'list' and len(seq[1]) == 1:
+            el = seq[1][0]
             # generic element of a loop over the producer mask: scalar bit * expander
             scal = ('elem', P)
             def lab_el(y):
